@@ -66,7 +66,7 @@ func main() {
 		select {
 		case e := <-done:
 			verdict = fmt.Sprintf("returned:%d", e)
-		case <-time.After(1500 * time.Millisecond):
+		case <-time.After(4 * time.Second):
 		}
 		json.NewEncoder(os.Stdout).Encode(map[string]string{"fatal": verdict})
 		os.Stdout.Sync()
